@@ -600,7 +600,11 @@ class ExprParser:
             is_int = re.fullmatch(r"\d+", t.text) is not None and int(t.text) <= 32767
             return ("num", float(t.text), is_int)
         if t.kind == "hex":
-            return ("num", float(int(t.text[1:], 16)), True)
+            h = int(t.text[1:], 16)
+            if h > 0xFFFF:
+                raise self.err(f"hex constant {t.text} does not fit BASIC09's 16-bit INTEGER")
+            # $hhhh is a 16-bit two's complement INTEGER constant: $8000 = -32768, $FFFF = -1
+            return ("num", float(h - 65536 if h >= 0x8000 else h), True)
         if t.kind == "str":
             return ("str", t.text[1:-1].replace('""', '"'))
         if t.kind == "op" and t.text == "(":
